@@ -55,11 +55,11 @@ PROPS["C03"] = {
 PROPS["C05"] = {
     "title": "A new version becomes active only when the promotion rule allows it",
     "level": "exploration",
-    "level_text": "The promotion lattice of the property (strategy x age-vs-duration incl. the boundary instants x noRestartsDuration x last restart x pause source x unpaused x canary-valid x failed x recorded active set present / being deleted under a finalizer / gone x recorded status.canary; 89856 points) is enumerated completely through the real ExtendedDaemonSet Reconcile on a store prepared by the real reconciler, on the virtual clock; each switch of status.activeReplicaSet is judged by a reference rule (three-valued at the boundary instants). The same rule is checked after every EDS reconcile of generated histories. A second job plays the complete product of failure routes x faults of the rollback's two-write window x pause x elapsed duration x reconcile order as histories and demands that a canary marked failed never becomes active (promotion-rule and canary-latch monitors after every reconcile, end-state check).",
+    "level_text": "The promotion lattice of the property (strategy x age-vs-duration incl. the boundary instants x noRestartsDuration x last restart x pause source x unpaused x canary-valid x failed x recorded active set present / being deleted under a finalizer / gone x recorded status.canary; 89856 points) is enumerated completely through the real ExtendedDaemonSet Reconcile on a store prepared by the real reconciler, on the virtual clock; each switch of status.activeReplicaSet is judged by a reference rule (three-valued at the boundary instants). The same rule is checked after every EDS reconcile of generated histories. A second job plays the complete product of failure routes x faults of the rollback's two-write window x pause x elapsed duration x reconcile order as histories and demands that a canary marked failed never becomes active (promotion-rule and canary-latch monitors after every reconcile, end-state check). A further history job loses one canary pod, refuses its re-creation at every sync and lets the other canary pod restart after the duration has elapsed: judged against ground truth, the canary does not become active while that restart is younger than noRestartsDuration.",
     "level_note": "Exhaustive only for the finite lattice named here (exhaustive_subspaces in the evidence); durations other than the sampled ones and interleavings are covered by sampling in the history tests.",
     "technique": "exhaustive enumeration of a finite input lattice + property-based sampling (rapid) against a reference promotion rule; stateful histories with a per-reconcile invariant",
-    "quick": {"jobs": [rapid_job("lattice-sample", "^TestC05Lattice$", 1500), rapid_job("lattice-all", "^TestC05Exhaustive$", 1, shards=4), rapid_job("failed-stays", "^TestC05FailedStays$", 1, shards=4)]},
-    "thorough": {"jobs": [rapid_job("lattice-sample", "^TestC05Lattice$", 10000, shards=4), rapid_job("lattice-all", "^TestC05Exhaustive$", 1, shards=8), rapid_job("failed-stays", "^TestC05FailedStays$", 1, shards=4)]},
+    "quick": {"jobs": [rapid_job("lattice-sample", "^TestC05Lattice$", 1500), rapid_job("lattice-all", "^TestC05Exhaustive$", 1, shards=4), rapid_job("failed-stays", "^TestC05FailedStays$", 1, shards=4), rapid_job("restart-under-pod-faults", "^TestC05RestartUnderPodFaults$", 1)]},
+    "thorough": {"jobs": [rapid_job("lattice-sample", "^TestC05Lattice$", 10000, shards=4), rapid_job("lattice-all", "^TestC05Exhaustive$", 1, shards=8), rapid_job("failed-stays", "^TestC05FailedStays$", 1, shards=4), rapid_job("restart-under-pod-faults", "^TestC05RestartUnderPodFaults$", 1)]},
 }
 
 PROPS["C15"] = {
@@ -119,7 +119,7 @@ PROPS["C08"] = {
 PROPS["C09"] = {
     "title": "Pod creation is rate limited by slow start and syncs are spaced",
     "level": "exploration",
-    "level_text": "Stateful property test on the virtual clock: reconcile requests arrive at generated instants (sub-second to minutes apart, so the one-second truncation of stored timestamps is exercised); after every active sync the number of pod Creates is compared with min(maxParallelPodCreation, (1+floor(t/interval))*increase) computed in big integers from the state read, update-deletions with maxUnavailable, and two write-issuing syncs of one replica set must be >= reconcileFrequency-1s apart when the first status write succeeded. Function-level: one sync over generated populations with excluded (taint, node selector) and canary-reserved nodes and a percent increase, the percent being resolved against the targeted nodes only (TestC09Creation); sync pairs at generated second fractions and gaps around reconcileFrequency (TestC09Spacing), and the ramp itself at exact instants k*interval-1ns/0/+1ns through a build-tagged shim, compared for equality with the reference formula (TestC09Ramp).",
+    "level_text": "Stateful property test on the virtual clock: reconcile requests arrive at generated instants (sub-second to minutes apart, so the one-second truncation of stored timestamps is exercised); after every active sync the number of pod Creates is compared with min(maxParallelPodCreation, (1+floor(t/interval))*increase) computed in big integers from the state read, update-deletions with maxUnavailable, and two write-issuing syncs of one replica set must be >= reconcileFrequency-1s apart when the first status write succeeded. Function-level: one sync over generated populations with excluded (taint, node selector) and canary-reserved nodes and a percent increase, the percent being resolved against the targeted nodes only (TestC09Creation); sync pairs at generated second fractions and gaps around reconcileFrequency (TestC09Spacing), and the ramp itself at exact instants k*interval-1ns/0/+1ns through a build-tagged shim, compared for equality with the reference formula (TestC09Ramp). A scripted product validates a canary right after it created its pods and demands that the promoted set's next request within reconcileFrequency touches no pod (the spacing holds across a change of role).",
     "level_note": SM_NOTE + " t is measured from the Active condition's stored (second-truncated) transition time, one extra second of slack is granted.",
     "technique": "stateful property-based testing (rapid) on a virtual clock with a reference ramp formula",
     "quick": {"jobs": [rapid_job("sm", "^TestC09SM$", 750, shards=4), rapid_job("spacing", "^TestC09Spacing$", 2000), rapid_job("creation", "^TestC09Creation$", 2000), rapid_job("ramp", "^TestC09Ramp$", 30000, requires="verif_rolling"), rapid_job("role-change", "^TestC09RoleChange$", 1)]},
@@ -149,11 +149,11 @@ PROPS["C13"] = {
 PROPS["C14"] = {
     "title": "Status tells the truth about replica sets and pods",
     "level": "exploration",
-    "level_text": "Stateful property test: after every successful EDS reconcile the stored status is compared with a reference implementation of the documented status function applied to the replica-set statuses that reconcile read (sums, desired/upToDate from active and canary set, state, reason, Canary-Paused/Canary-Failed conditions); after every active/canary sync 0<=available<=ready<=current<=desired; after stabilisation the counters are compared with the pods and nodes that exist. A function-level test feeds the status function alone with 1-3 replica sets carrying generated counters (incl. leftover sets with non-zero counters and sets that are being deleted under a finalizer while they still report pods), conditions, roles and annotation settings. A third job runs the reconcilers event-driven (watch wiring, Requeue/RequeueAfter/error handling and the no-event-for-a-no-op-write rule modelled after controllers/*_controller.go and the controller-runtime worker, virtual clock): disturbances are placed around the active replica set's next sync time and after 2 x reconcileFrequency + 2s of quiet the counters must equal what exists; the recorded sub-second-frequency finding has its own deterministic reproducer.",
+    "level_text": "Stateful property test: after every successful EDS reconcile the stored status is compared with a reference implementation of the documented status function applied to the replica-set statuses that reconcile read (sums, desired/upToDate from active and canary set, state, reason, Canary-Paused/Canary-Failed conditions); after every active/canary sync 0<=available<=ready<=current<=desired; after stabilisation the counters are compared with the pods and nodes that exist. A function-level test feeds the status function alone with 1-3 replica sets carrying generated counters (incl. leftover sets with non-zero counters and sets that are being deleted under a finalizer while they still report pods), conditions, roles and annotation settings. A third job runs the reconcilers event-driven (watch wiring, Requeue/RequeueAfter/error handling and the no-event-for-a-no-op-write rule modelled after controllers/*_controller.go and the controller-runtime worker, virtual clock): disturbances are placed around the active replica set's next sync time and after 2 x reconcileFrequency + 2s of quiet the counters must equal what exists; the recorded sub-second-frequency finding has its own deterministic reproducer. Two scripted products compare the counters with the pods while a canary is held by canary-paused, and after one setting took a node over from another (a pod that still carries what the previous setting gave it is not a pod of the live template).",
     "level_note": SM_NOTE + " The event-driven scheduler is a hand-written model of controller-runtime (no informer lag, no 10-hour resync); it draws reconcile frequencies of one second or more (below that the recorded finding F21 applies).",
     "technique": "stateful property-based testing (rapid) against a reference status function + quiescent-state oracle + function-level property test of the status function",
-    "quick": {"jobs": [rapid_job("sm", "^TestC14SM$", 500, shards=4), rapid_job("function", "^TestC14StatusFunction$", 3000, shards=2), rapid_job("queue", "^TestC14Queue$", 400, shards=2), rapid_job("known", "^TestC14Known", 1), rapid_job("paused-canary", "^TestC14PausedCanary$", 1)]},
-    "thorough": {"jobs": [rapid_job("sm", "^TestC14SM$", 2500, shards=12, timeout="50m"), rapid_job("function", "^TestC14StatusFunction$", 40000, shards=4), rapid_job("queue", "^TestC14Queue$", 6000, shards=6, timeout="50m"), rapid_job("known", "^TestC14Known", 1), rapid_job("paused-canary", "^TestC14PausedCanary$", 1)]},
+    "quick": {"jobs": [rapid_job("sm", "^TestC14SM$", 500, shards=4), rapid_job("function", "^TestC14StatusFunction$", 3000, shards=2), rapid_job("queue", "^TestC14Queue$", 400, shards=2), rapid_job("known", "^TestC14Known", 1), rapid_job("paused-canary", "^TestC14PausedCanary$", 1), rapid_job("take-over", "^TestC14TakeOver$", 1)]},
+    "thorough": {"jobs": [rapid_job("sm", "^TestC14SM$", 2500, shards=12, timeout="50m"), rapid_job("function", "^TestC14StatusFunction$", 40000, shards=4), rapid_job("queue", "^TestC14Queue$", 6000, shards=6, timeout="50m"), rapid_job("known", "^TestC14Known", 1), rapid_job("paused-canary", "^TestC14PausedCanary$", 1), rapid_job("take-over", "^TestC14TakeOver$", 1)]},
 }
 
 PROPS["C03"]["quick"]["jobs"].append(rapid_job("sm", "^TestC09SM$", 60, shards=2))
@@ -195,11 +195,11 @@ PROPS["C10"] = {
 PROPS["C18"] = {
     "title": "At most one valid ExtendedDaemonsetSetting applies to a node",
     "level": "exploration",
-    "level_text": "Generated populations of 1-4 settings in one or two namespaces (creation times equal or different, selectors by labels or expressions including unusable ones (In without values, an unknown operator, an illegal label value), reference present / empty / absent / naming another EDS) and 0-4 labelled nodes; every setting is reconciled (twice) by the real setting reconciler in a generated order - in TestC18AllOrders in every permutation (exhaustive in the order dimension) - and the statuses are judged by a reference verdict: malformed => error, two settings matching a common node never both valid, invalid overlapping => conflict error, well-formed and overlapping no other => valid. Then the real replica-set sync creates pods and each pod's setting label must name a valid setting of that EDS whose selector matches the pod's node. A late-arrival phase adds a newer setting after the verdicts stand and reconciles every setting once more the way a work queue does (again only after an error or a write to the setting itself) with one failing read of the setting controller: the verdicts must still be the reference ones.",
+    "level_text": "Generated populations of 1-4 settings in one or two namespaces (creation times equal or different, selectors by labels or expressions including unusable ones (In without values, an unknown operator, an illegal label value), reference present / empty / absent / naming another EDS) and 0-4 labelled nodes; every setting is reconciled (twice) by the real setting reconciler in a generated order - in TestC18AllOrders in every permutation (exhaustive in the order dimension) - and the statuses are judged by a reference verdict: malformed => error, two settings matching a common node never both valid, invalid overlapping => conflict error, well-formed and overlapping no other => valid. Then the real replica-set sync creates pods and each pod's setting label must name a valid setting of that EDS whose selector matches the pod's node. A late-arrival phase adds a newer setting after the verdicts stand and reconciles every setting once more the way a work queue does (again only after an error or a write to the setting itself) with one failing read of the setting controller: the verdicts must still be the reference ones. A take-over product (two-container template, S1 over a subset of the containers, deleted, successor S2 over another subset with equal or other values) demands that the node's pod ends up as the pod the creation path builds from the template and S2 alone.",
     "level_note": "A setting without reference still counts as an overlapping neighbour (statement is silent); only the pairwise 'never both valid' and the explicit positive case are demanded.",
     "technique": "property-based testing (rapid) against a reference verdict; exhaustive enumeration of reconcile orders per generated population",
-    "quick": {"jobs": [rapid_job("settings", "^TestC18Settings$", 2000, shards=2), rapid_job("all-orders", "^TestC18AllOrders$", 250, shards=2)]},
-    "thorough": {"jobs": [rapid_job("settings", "^TestC18Settings$", 15000, shards=8, timeout="50m"), rapid_job("all-orders", "^TestC18AllOrders$", 1500, shards=8, timeout="50m")]},
+    "quick": {"jobs": [rapid_job("settings", "^TestC18Settings$", 2000, shards=2), rapid_job("all-orders", "^TestC18AllOrders$", 250, shards=2), rapid_job("take-over", "^TestC18TakeOver$", 1)]},
+    "thorough": {"jobs": [rapid_job("settings", "^TestC18Settings$", 15000, shards=8, timeout="50m"), rapid_job("all-orders", "^TestC18AllOrders$", 1500, shards=8, timeout="50m"), rapid_job("take-over", "^TestC18TakeOver$", 1)]},
 }
 
 PROPS["C07"] = {
